@@ -66,7 +66,14 @@ other=$(ls "$WORK/artifacts" 2>/dev/null | grep -E "^(oom|timeout)-" | head -1)
 msg=$(cat "$WORK"/log.* | grep -a -m1 -E "FUZZ-VIOLATION|ERROR: AddressSanitizer|unsafe precondition|panicked at" | cut -c1-400 | sed 's/"/'"'"'/g')
 verdict=0
 replay=""
-if [ -n "$crash" ]; then
+# a panic raised inside the harness's own generator / oracle / bignum code (which never calls the code under
+# test) is a harness bug, not a property violation: exit 2, like the native runner does
+harness_bug=0
+if echo "$msg" | grep -q -E "panicked at [^ ]*mlv/src/(gen|nat|oracle)\.rs"; then harness_bug=1; fi
+if [ -n "$crash" ] && [ "$harness_bug" = 1 ]; then
+  echo "HARNESS-ERROR: fuzz target $TARGET: the harness itself panicked: $msg" >&2
+  verdict=2
+elif [ -n "$crash" ]; then
   mkdir -p "$VERIF_DIR/replays"
   sum=$(sha1sum "$WORK/artifacts/$crash" | cut -c1-16)
   replay="$VERIF_DIR/replays/$ID-$TARGET-$MODE-$sum.bin"
